@@ -235,6 +235,8 @@ def eval_cases(ctx, corr_module, cases, tag="cases", shard=400, extra_q=()):
         for d, n in extra_q:
             cmd += ["-Q", d, n]
         cmd += ["-w", "-notation-overridden", os.path.basename(p)]
+        # long list literals (whole configuration files, spool contents) need a deep stack in coqc
+        cmd = ["bash", "-c", "ulimit -s unlimited 2>/dev/null || ulimit -s 1000000 2>/dev/null; exec \"$@\"", "coqc-wrap"] + cmd
         procs.append((si, p, cmd))
     mism, monf, tags = [], [], []
     running = []
